@@ -8,9 +8,15 @@
  * One case = one module rendered in lockstep by NCTX contexts that differ only in the
  * output configuration, all driven by the same control script (xmp_set_position,
  * xmp_next/prev_position, xmp_seek_time, xmp_set_row, xmp_restart_module, xmp_set_tempo_factor,
- * xmp_inject_event with a tempo effect, at random frames).  xmp_set_tempo_factor may refuse a value
- * depending on the sampling rate (documented: the tick must fit the frame buffer); a value that is not
- * accepted by all contexts is rolled back in all of them, so the script stays common.  One case in
+ * xmp_inject_event with a tempo effect, xmp_set_player probes, at random frames).  xmp_set_tempo_factor may
+ * refuse a value depending on the sampling rate (documented: the tick must fit the frame buffer) but never
+ * depending on the sample format: contexts with the same rate must give the same answer (oracle
+ * `tempo_factor`), and every case probes factors around the acceptance limit of one of its contexts
+ * (limit x {0.25, 0.5, 0.9, 1, 1.1, 2, 4} and the two factors whose tick size is exactly the cap / cap + 1),
+ * tiny, huge, zero, negative, infinite and NaN factors.  A value that is not accepted by all contexts is rolled
+ * back in all of them, so the script stays common.  Each real call is also written as a model case
+ *   tfc <fmt> <rate> <playing> <bpm> <rrate m e> <time_factor m e> <bad|inf|pos> <val m e>  /  tfe <ret> <time_factor m e>
+ * (doubles exactly as m * 2^e) for the Lean driver (Xmp.C13Timeline.setTempoFactor).  One case in
  * five is a "slow" case: the largest commonly accepted tempo factor followed by an injected tempo of
  * 32 BPM, which drives the high-rate contexts into the tick-size clamp of libxmp_mixer_prepare.
  *
@@ -36,6 +42,8 @@
  *   site <fmt> <ticksize> <amp> <hex of the accumulators>   /  siteout <buffer_size> <fnv of the bytes in s->buffer>
  */
 #include "vcommon.h"
+#include <math.h>
+#include <float.h>
 #include <unistd.h>
 #include <sys/wait.h>
 #include <xmp.h>
@@ -46,7 +54,7 @@
 #define NGROUP 8
 #define NFREE 3
 #define NCTX (NGROUP + NFREE)
-#define MAXOPS 64
+#define MAXOPS 96
 
 struct cfg {
 	int rate, fmt, interp, amp, mix, vol, dsp;
@@ -90,25 +98,103 @@ static void apply_cfg(xmp_context c, const struct cfg *k)
 static const double tf_vals[] = { 0.25, 0.5, 0.8, 1.5, 2.0, 3.0, 4.0, 6.0, 8.0 };
 #define NTF ((int)(sizeof(tf_vals) / sizeof(tf_vals[0])))
 
+/* canonical m * 2^e of a positive double: m odd */
+static void dbl_canon(double x, unsigned long long *m, int *e)
+{
+	int ex;
+	double fr = frexp(x, &ex);
+	unsigned long long mm = (unsigned long long)ldexp(fr, 53);
+	ex -= 53;
+	if (mm == 0) {
+		*m = 0;
+		*e = 0;
+		return;
+	}
+	while ((mm & 1) == 0) {
+		mm >>= 1;
+		ex++;
+	}
+	*m = mm;
+	*e = ex;
+}
+
+static int tfc_budget;
+static long n_tf_calls, n_tf_accept, n_tf_refuse, n_tf_samerate_pairs, n_tf_probe_split;
+
 /* xmp_set_tempo_factor in all contexts; keeps it only when all contexts answer the same.
+ * Oracle: contexts with the same sampling rate answer the same (the sample format must not matter).
  * returns the common return code, or 1 when rolled back */
-static int tempo_factor_all(xmp_context *c, int n, double val)
+static int tempo_factor_all(xmp_context *c, const struct cfg *k, int n, double val, int frame)
 {
 	double old[32];
-	int r[32], i, same = 1;
+	int r[32], i, j, same = 1;
 
 	for (i = 0; i < n; i++) {
-		old[i] = ((struct context_data *)c[i])->m.time_factor;
+		struct context_data *g = (struct context_data *)c[i];
+		unsigned long long rm, tm, vm = 0;
+		int re, te, ve = 0, emit;
+		const char *kind = (val != val || val <= 0.0) ? "bad" : isinf(val) ? "inf" : "pos";
+		old[i] = g->m.time_factor;
+		emit = tfc_budget > 0 && fpclassify(g->m.rrate) == FP_NORMAL && g->m.rrate > 0 &&
+		       fpclassify(old[i]) == FP_NORMAL && old[i] > 0 && (kind[0] != 'p' || fpclassify(val) == FP_NORMAL);
+		if (emit) {
+			dbl_canon(g->m.rrate, &rm, &re);
+			dbl_canon(old[i], &tm, &te);
+			if (kind[0] == 'p')
+				dbl_canon(val, &vm, &ve);
+			printf("tfc %d %d %d %d %llu %d %llu %d %s %llu %d\n", k[i].fmt, g->s.freq, g->state >= XMP_STATE_PLAYING,
+			       g->p.bpm, rm, re, tm, te, kind, vm, ve);
+		}
 		r[i] = xmp_set_tempo_factor(c[i], val);
+		n_tf_calls++;
+		if (r[i] == 0)
+			n_tf_accept++;
+		else
+			n_tf_refuse++;
+		if (emit) {
+			dbl_canon(g->m.time_factor, &tm, &te);
+			printf("tfe %d %llu %d\n", r[i], tm, te);
+			tfc_budget--;
+		}
 		if (r[i] != r[0])
 			same = 0;
 	}
+	for (i = 0; i < n; i++) {
+		for (j = i + 1; j < n; j++) {
+			if (k[i].rate != k[j].rate)
+				continue;
+			n_tf_samerate_pairs++;
+			if (r[i] != r[j])
+				ofail("tempo_factor", frame, i, j, "ret", r[i], r[j]);
+			else if (((struct context_data *)c[i])->m.time_factor != ((struct context_data *)c[j])->m.time_factor)
+				ofail("tempo_factor", frame, i, j, "time_factor", (long)((struct context_data *)c[i])->m.time_factor,
+				      (long)((struct context_data *)c[j])->m.time_factor);
+		}
+	}
 	if (same)
 		return r[0];
+	n_tf_probe_split++;
 	for (i = 0; i < n; i++)
 		((struct context_data *)c[i])->m.time_factor = old[i];
 	return 1;
 }
+
+/* the factor at which the tick of context g reaches `ticks` frames: ticks = freq * (10 val) * rrate / bpm / 1000 */
+static double factor_for_ticks(const struct context_data *g, double ticks)
+{
+	return ticks * g->p.bpm * 1000.0 / ((double)g->s.freq * g->m.rrate * 10.0);
+}
+
+static const double tf_mult[] = { 0.25, 0.5, 0.9, 1.0, 1.1, 2.0, 4.0 };
+#define NMULT ((int)(sizeof(tf_mult) / sizeof(tf_mult[0])))
+
+/* other setters: the answer to a probe must not depend on the output configuration */
+static const int sp_parm[] = { XMP_PLAYER_AMP, XMP_PLAYER_MIX, XMP_PLAYER_INTERP, XMP_PLAYER_DSP, XMP_PLAYER_FLAGS,
+	XMP_PLAYER_CFLAGS, XMP_PLAYER_SMPCTL, XMP_PLAYER_VOLUME, XMP_PLAYER_STATE, XMP_PLAYER_SMIX_VOLUME, XMP_PLAYER_DEFPAN,
+	XMP_PLAYER_MODE, XMP_PLAYER_MIXER_TYPE, XMP_PLAYER_VOICES, 12345 };
+#define NSPARM ((int)(sizeof(sp_parm) / sizeof(sp_parm[0])))
+static const int sp_bad[] = { -1, 4, 99, 101, -101, 201, 1000, 0x7fffffff, -0x7fffffff };
+#define NSPBAD ((int)(sizeof(sp_bad) / sizeof(sp_bad[0])))
 
 static int do_op(xmp_context c, const struct op *o)
 {
@@ -179,7 +265,7 @@ static int run_case(const char *path, const unsigned char *data, long size, uint
 	int i, j, nops, frame, nctx = 0, sites = 0, played = 0;
 	int R, M, A, len, total;
 	long nonsilent = 0, clipped = 0, rowchg = 0, poschg = 0, samples_cmp = 0, opok = 0, reconf = 0;
-	long novoice = 0, clampedf = 0, tfroll = 0;
+	long novoice = 0, clampedf = 0, tfroll = 0, tfprobes = 0, setprobes = 0;
 	int bpmmin = 1 << 30;
 	double tfmax = 0;
 	int slow;
@@ -188,6 +274,8 @@ static int run_case(const char *path, const unsigned char *data, long size, uint
 
 	vrng_seed(cseed);
 	printed = 0;
+	tfc_budget = 48;
+	n_tf_calls = n_tf_accept = n_tf_refuse = n_tf_samerate_pairs = n_tf_probe_split = 0;
 
 	for (i = 0; i < NCTX; i++) {
 		c[i] = xmp_create_context();
@@ -251,12 +339,21 @@ static int run_case(const char *path, const unsigned char *data, long size, uint
 	/* control script */
 	slow = vrng_chance(20);
 	nops = vrng_chance(25) ? 0 : vrng_range(1, maxframes / 25 + 1);
-	if (nops > MAXOPS - 2)
-		nops = MAXOPS - 2;
+	if (nops > MAXOPS - 8)
+		nops = MAXOPS - 8;
 	for (i = 0; i < nops; i++) {
 		ops[i].frame = vrng_range(0, maxframes - 1);
-		ops[i].kind = vrng_range(0, 7);
+		{
+			static const int kinds[] = { 0, 1, 2, 3, 4, 5, 6, 7, 9, 9, 10, 11 };
+			ops[i].kind = kinds[vrng_below(sizeof(kinds) / sizeof(kinds[0]))];
+		}
 		ops[i].arg = 0;
+		if (ops[i].kind == 9)		/* context whose limit is probed, multiplier / exact-boundary selector */
+			ops[i].arg = (int)vrng_below(NCTX) * 16 + (int)vrng_below(NMULT + 2);
+		else if (ops[i].kind == 10)
+			ops[i].arg = (int)vrng_below(9);
+		else if (ops[i].kind == 11)
+			ops[i].arg = (int)vrng_below(NSPARM) * 16 + (vrng_chance(50) ? 0 : 1 + (int)vrng_below(NSPBAD));
 		if (ops[i].kind == 6)
 			ops[i].arg = vrng_range(0, NTF - 1);
 		else if (ops[i].kind == 7)
@@ -269,6 +366,13 @@ static int run_case(const char *path, const unsigned char *data, long size, uint
 			ops[i].arg = vrng_chance(90) ? vrng_range(0, 63) : vrng_range(-2, 300);
 	}
 
+	/* every case probes the acceptance limit of xmp_set_tempo_factor a few times */
+	for (i = 0; i < 4 && nops < MAXOPS - 3; i++) {
+		ops[nops].frame = vrng_range(0, maxframes > 40 ? 40 : maxframes - 1);
+		ops[nops].kind = 9;
+		ops[nops].arg = (int)(i < 2 ? vrng_below(NGROUP) : vrng_below(NCTX)) * 16 + (int)vrng_below(NMULT + 2);
+		nops++;
+	}
 	if (slow) {
 		ops[nops].frame = 1;
 		ops[nops].kind = 8;	/* largest commonly accepted tempo factor */
@@ -303,10 +407,50 @@ static int run_case(const char *path, const unsigned char *data, long size, uint
 			int r0 = 0;
 			if (ops[j].frame != frame)
 				continue;
+			if (ops[j].kind == 9 || ops[j].kind == 10) {
+				double val;
+				int r;
+				if (ops[j].kind == 9) {
+					const struct context_data *gq = (const struct context_data *)c[ops[j].arg / 16];
+					int sel = ops[j].arg % 16;
+					double cap = XMP_MAX_FRAMESIZE / 4;
+					val = sel < NMULT ? factor_for_ticks(gq, cap) * tf_mult[sel] :
+					      sel == NMULT ? factor_for_ticks(gq, cap + 0.5) : factor_for_ticks(gq, cap + 1.000001);
+				} else {
+					static const double special[] = { 0.0, -1.0, 0.0 /* NaN */, 0.0 /* inf */, 1e-300, 1e-9, 1e-3, 1e300,
+						DBL_MAX };
+					val = ops[j].arg == 2 ? NAN : ops[j].arg == 3 ? INFINITY : special[ops[j].arg];
+				}
+				r = tempo_factor_all(c, k, NCTX, val, frame);
+				if (r == 1)
+					tfroll++;
+				if (r == 0)
+					opok++;
+				tfprobes++;
+				continue;
+			}
+			if (ops[j].kind == 11) {
+				int parm = sp_parm[ops[j].arg / 16], sel = ops[j].arg % 16;
+				for (i = 0; i < NCTX; i++) {
+					int v = sel == 0 ? xmp_get_player(c[i], parm) : sp_bad[sel - 1];
+					int r = xmp_set_player(c[i], parm, v);
+					if (i == 0)
+						r0 = r;
+					else if (r != r0)
+						ofail("timeline", frame, 0, i, "setter_ret", r0, r);
+				}
+				if (sel != 0) {
+					/* a refused or clamped probe must not leave the configurations changed */
+					for (i = 0; i < NCTX; i++)
+						apply_cfg(c[i], &k[i]);
+				}
+				setprobes++;
+				continue;
+			}
 			if (ops[j].kind == 6 || ops[j].kind == 8) {
 				int q = ops[j].kind == 6 ? ops[j].arg : NTF - 1, r;
 				do {
-					r = tempo_factor_all(c, NCTX, tf_vals[q]);
+					r = tempo_factor_all(c, k, NCTX, tf_vals[q], frame);
 					if (r == 1)
 						tfroll++;
 				} while (ops[j].kind == 8 && r != 0 && --q >= 0);
@@ -471,9 +615,9 @@ static int run_case(const char *path, const unsigned char *data, long size, uint
 	}
 	for (i = 0; i < NCTX; i++)
 		xmp_end_player(c[i]);
-	printf("stat frames=%d rowchg=%ld poschg=%ld loops=%d nonsilent=%ld clipped=%ld samples=%ld opok=%ld reconf=%ld novoice=%ld clampticks=%ld tfroll=%ld slow=%d bpmmin=%d tfmax=%d fails=%ld\n",
+	printf("stat frames=%d rowchg=%ld poschg=%ld loops=%d nonsilent=%ld clipped=%ld samples=%ld opok=%ld reconf=%ld novoice=%ld clampticks=%ld tfroll=%ld slow=%d bpmmin=%d tfmax=%d tfprobes=%ld tfcalls=%ld tfaccept=%ld tfrefuse=%ld tfpairs=%ld setprobes=%ld fails=%ld\n",
 	       played, rowchg, poschg, maxloop, nonsilent, clipped, samples_cmp, opok, reconf, novoice, clampedf, tfroll, slow, bpmmin, (int)tfmax,
-	       n_fail - fails_before);
+	       tfprobes, n_tf_calls, n_tf_accept, n_tf_refuse, n_tf_samerate_pairs, setprobes, n_fail - fails_before);
     out:
 	printf("end\n");
 	for (i = 0; i < NCTX; i++) {
